@@ -59,7 +59,8 @@ fn proj(r: &Value) -> Value {
     p
 }
 
-fn batch_histories(tier: Tier, st: &mut Stats) {
+/// returns false when the application stopped answering (the rest of the run is then skipped)
+fn batch_histories(tier: Tier, st: &mut Stats) -> bool {
     let scratch = Scratch::new("c06");
     let alpha = alphabet();
     let max_len = tier.pick(3usize, 4usize);
@@ -78,14 +79,14 @@ fn batch_histories(tier: Tier, st: &mut Stats) {
         batches.extend(next.iter().cloned());
         layer = next;
     }
-    let mut apps: Vec<(usize, &str, CompassApp)> = vec![];
+    let mut apps: Vec<(usize, &str, std::sync::Arc<CompassApp>)> = vec![];
     for par in 1..=4usize {
         for bal in ["none", "haversine", "custom"] {
             match app_spec(par, bal).build(&scratch.path.join(format!("app_{}_{}", par, bal))) {
-                Ok(a) => apps.push((par, bal, a)),
+                Ok(a) => apps.push((par, bal, std::sync::Arc::new(a))),
                 Err(e) => {
                     st.violation("harness", "app_build", 0, || e.clone(), || json!({"parallelism": par, "balancer": bal}));
-                    return;
+                    return true;
                 }
             }
         }
@@ -103,7 +104,7 @@ fn batch_histories(tier: Tier, st: &mut Stats) {
                 };
             if !ok {
                 st.violation("harness", "alphabet_query_behaves_as_named", 0, || format!("{} under parallelism {} balancer {}: {:?}", name, par, bal, alone[i]), || json!({}));
-                return;
+                return true;
             }
         }
         for (bi, b) in batches.iter().enumerate() {
@@ -134,7 +135,14 @@ fn batch_histories(tier: Tier, st: &mut Stats) {
                     let names: Vec<&str> = b.iter().map(|qi| alpha[*qi].0).collect();
                     let case = || json!({"batch": names, "configured_parallelism": par, "run_parallelism": override_par, "balancer": bal, "persistence": persist});
                     let size = b.len() as u64 * 100 + b.iter().sum::<usize>() as u64;
-                    let r = guarded(|| app.run(queries.clone(), Some(&cfg)).map_err(|e| e.to_string()));
+                    let (a2, q2, c2) = (app.clone(), queries.clone(), cfg.clone());
+                    let r = match crate::engine::with_deadline(60, move || guarded(|| a2.run(q2, Some(&c2)).map_err(|e| e.to_string()))) {
+                        Some(r) => r,
+                        None => {
+                            st.violation(&comp, "returns_in_bounded_time", size, || "CompassApp::run did not return within 60 s (worker pool stuck); the rest of the batch histories is skipped".to_string(), case);
+                            return false;
+                        }
+                    };
                     let returned = match r {
                         Err(p) => {
                             st.violation(&comp, "no_panic", size, || p.clone(), case);
@@ -185,6 +193,7 @@ fn batch_histories(tier: Tier, st: &mut Stats) {
             }
         }
     }
+    true
 }
 
 /// (b) load balancing: every query in exactly one of at most `parallelism` bins
@@ -291,12 +300,16 @@ pub fn run(tier: Tier) -> i32 {
     let info = RunInfo::new("C06", tier);
     let mut st = Stats::new();
     let mut bounds = serde_json::Map::new();
-    batch_histories(tier, &mut st);
+    let alive = batch_histories(tier, &mut st);
     load_balancing(tier, &mut st);
     st.sample(3, || json!({"load_balancing": {"weights": [null, 5.0, 0.0, 2.0], "parallelism": 3}}));
-    if let Err(e) = schedules(tier, &mut st, &mut bounds) {
-        println!("MACHINERY-ERROR {}", e);
-        return 2;
+    if alive {
+        if let Err(e) = schedules(tier, &mut st, &mut bounds) {
+            println!("MACHINERY-ERROR {}", e);
+            return 2;
+        }
+    } else {
+        st.notes.insert("schedule exploration skipped: the application's global worker pool is stuck".into());
     }
     st.sample(4, || json!({"schedule_scenario": "c06_2x2_jsonl", "schedule": [1, 0, 0, 1]}));
     bounds.insert("batch_length".into(), json!(tier.pick(3, 4)));
